@@ -80,6 +80,14 @@ add("date", "date(\u3000date_length\u2003:\u00a0full\u3000)", ("Full",))
 add("list", "list(list_type\u00a0: or\u00a0; list_style\u00a0: short)", ("Or", "Short"))
 add("cur", "currency(width\u00a0: narrow\u00a0;\u00a0currency_code\u00a0: EUR)", ("Narrow", "EUR"))
 
+# ---- pieces without a colon (a stray `;`, a bare word) are skipped like any unknown argument; what follows still counts
+add("num", "number(; grouping_strategy: never)", ("Never",))
+add("num", "number(compact; grouping_strategy: always)", ("Always",))
+add("list", "list(;; list_type: or; list_style: narrow)", ("Or", "Narrow"))
+add("dt", "datetime(date_length: long; ; time_length: medium)", ("Long", "Medium"))
+add("cur", "currency(accounting; width: narrow; currency_code: EUR)", ("Narrow", "EUR"))
+add("date", "date(date_length: full;)", ("Full",))
+
 # ---- keys declared only in the default locale: every other locale defaults to it, and the value must still be
 # formatted for the locale being rendered
 N_DECLARED_EVERYWHERE = len(keys)
